@@ -1512,12 +1512,11 @@ class CodeGenerator(NodeVisitor):
             self.return_buffer_contents(loop_frame)
             self.outdent()
             self.start_write(frame, node)
+            # The iterable is handed over as it is, also in async mode: the
+            # loop context (or the loop filter function) adapts it, and a
+            # sized iterable keeps its len() for loop.length / len(loop).
             self.write(f"{self.choose_async('await ')}loop(")
-            if self.environment.is_async:
-                self.write("auto_aiter(")
             self.visit(node.iter, frame)
-            if self.environment.is_async:
-                self.write(")")
             self.write(", loop)")
             self.end_write(frame)
 
